@@ -100,7 +100,10 @@ Definition rs_step (st : rstate) (opl impl_out impl_obs : list N) : rstate * lis
                   | None => (rs_ref st, [RRef 0 2])
                   end
                 else (rs_ref st, []) in
-              let r_mon := if valid then monitors st o ix o2 else [] in
+              let r_mon :=
+                if valid then monitors st o ix o2
+                else if rs_valid st && negb (c12_create_ok (rs_tick st) (rs_prev st) o ix o2)
+                     then [RMonitor 12 1] else [] in
               let trading' := match o with OEnable => true | ODisable => false | _ => rs_trading st end in
               let nd' := rs_never_disabled st && negb (match o with ODisable => true | _ => false end) in
               (mkRS (rs_L st) (rs_tick st) m' rf' o2 trading' nd' valid false,
